@@ -171,8 +171,9 @@ static void ev_cb(int kind, const void *ptr, int64_t a, int64_t b) {
 /* ---------- collection ---------- */
 static uint32_t c_rank_of_key(parsec_data_collection_t *d, parsec_data_key_t key) { (void)d; return (uint32_t)owner[(int)key % vf_nk]; }
 static uint32_t c_rank_of(parsec_data_collection_t *d, ...) { va_list ap; va_start(ap, d); int k = va_arg(ap, int); va_end(ap); return c_rank_of_key(d, (parsec_data_key_t)k); }
-static int32_t c_vpid_of(parsec_data_collection_t *d, ...) { (void)d; return 0; }
-static int32_t c_vpid_of_key(parsec_data_collection_t *d, parsec_data_key_t k) { (void)d; (void)k; return 0; }
+static int vf_nvp = 1;   /* virtual processes of the context (several with a multi-package hwloc topology + vpmap hwloc) */
+static int32_t c_vpid_of_key(parsec_data_collection_t *d, parsec_data_key_t k) { (void)d; return (int32_t)(((int)k) % vf_nvp); }
+static int32_t c_vpid_of(parsec_data_collection_t *d, ...) { va_list ap; va_start(ap, d); int k = va_arg(ap, int); va_end(ap); return c_vpid_of_key(d, (parsec_data_key_t)k); }
 static parsec_data_key_t c_data_key(parsec_data_collection_t *d, ...) { va_list ap; va_start(ap, d); int k = va_arg(ap, int); va_end(ap); (void)d; return (parsec_data_key_t)k; }
 static parsec_data_t *c_data_of_key(parsec_data_collection_t *d, parsec_data_key_t key) {
     int k = (int)key;
@@ -305,6 +306,7 @@ int main(int argc, char **argv) {
     for (int i = 1; i < argc; i++) if (!strcmp(argv[i], "--")) { pargc = argc - i; pargv = argv + i; break; }
     parsec_context_t *ctx = parsec_init(cores, &pargc, &pargv);
     if (!ctx) { fprintf(stderr, "parsec_init failed\n"); return 3; }
+    vf_nvp = ctx->nb_vp > 0 ? ctx->nb_vp : 1;
     parsec_type_create_contiguous(vf_ts, parsec_datatype_int64_t, &vf_tile_dtt);
 
     parsec_data_collection_t D;
@@ -361,6 +363,6 @@ int main(int argc, char **argv) {
     parsec_fini(&ctx);
     MPI_Finalize();
     if (hb_late) { hb_stop = 1; pthread_join(hb, NULL); }
-    printf("VF {\"type\":\"summary\",\"rank\":%d,\"records\":%llu}\n", vf_rank, (unsigned long long)nrecs);
+    printf("VF {\"type\":\"summary\",\"rank\":%d,\"records\":%llu,\"nb_vp\":%d}\n", vf_rank, (unsigned long long)nrecs, vf_nvp);
     return 0;
 }
